@@ -158,10 +158,11 @@ def run_driver(bindir, batches_path, root, entries, flags, timeout=900, mode="ru
 
 def judge_batches(chk, recs, tag):
     path = os.path.join(chk.work, "ops_trace_%s.ndjson" % tag)
-    slim = [{"ev": "batch", "panic": r["panic"], "enter": r["enter"], "side_same": r["side_same"], "payload_same": r["payload_same"],
+    slim = [r if r["ev"] == "geometry" else {"ev": "batch", "panic": r["panic"], "enter": r["enter"], "side_same": r["side_same"], "payload_same": r["payload_same"],
              "subs": [{k: s[k] for k in ("u", "op", "link", "req", "got_slot")} for s in r["subs"]],
              "cqes": [{"u": c["u"], "res": c["res"]} for c in r["cqes"]],
-             "direct": [{"u": d["u"], "res": d["res"], "ran": d["ran"], "revents": d.get("revents") or 0} for d in r["direct"]]}
+             "direct": [{"u": d["u"], "res": d["res"], "ran": d["ran"], "revents": d.get("revents") or 0,
+                         "count_reached": bool(d.get("count_reached"))} for d in r["direct"]]}
             for r in recs]
     core.write_ndjson(path, slim)
     res = core.run_tlc("UringOpsTrace.tla", "UringOpsTrace.cfg", workers=1, env={"TRACE": path}, timeout=3000, xmx="6g", xss="512m",
@@ -217,7 +218,7 @@ def strace_teardown(chk, bindir, entries, flags, with_op, run_id):
     if p.returncode != 0:
         raise core.ToolError("strace/uring_ops teardown failed rc=%s: %s" % (p.returncode, p.stderr[-1500:]))
     out = [json.loads(l) for l in p.stdout.splitlines() if l.startswith("{")]
-    if not out or out[0]["ev"] != "teardown":
+    if not any(o["ev"] == "teardown" for o in out):
         return None, out
     evs = [{"ev": "reset", "run": run_id, "entries": entries, "flags": flags, "with_op": with_op}]
     phase = None
@@ -236,7 +237,7 @@ def strace_teardown(chk, bindir, entries, flags, with_op, run_id):
                 if phase == "drop:end":
                     evs.append({"ev": "drop_end"})
             continue
-        if phase is None or phase == "drop:end":
+        if phase is None or phase in ("drop:end", "geom:begin"):
             continue
         if name == "io_uring_setup":
             evs.append({"ev": "setup", "fd": int(rv)})
@@ -275,7 +276,10 @@ def run(tier):
     t0 = time.time()
     bindir = core.cargo_build(bins=["uring_ops"])
     # ---- TLC: models and generators (in parallel; at most 8 TLC worker threads at a time)
-    sizes = ((1, 150), (2, 150), (8, 250), (32, 150)) if quick else ((1, 400), (2, 400), (8, 1500), (32, 600))
+    # requested sizes: powers of two and sizes the kernel rounds up (3->4, 5,6,7->8, 12->16, 33->64); every walk laps
+    # its ring many times
+    sizes = ((1, 100), (2, 100), (3, 100), (5, 100), (6, 80), (7, 80), (8, 200), (12, 80), (33, 80)) if quick else \
+        ((1, 400), (2, 400), (3, 400), (5, 400), (6, 400), (7, 400), (8, 1500), (12, 400), (32, 600), (33, 400))
     with cf.ThreadPoolExecutor(max_workers=3) as pool:
         f_models = pool.submit(model_runs, chk.work)
         f_singles = pool.submit(generate, chk.work, "singles", 1, 0, 0, chk.seed)
@@ -322,6 +326,10 @@ def run(tier):
             fl = ops_flags[k % len(ops_flags)]
             k += 1
             plan.append(("walk%d" % size, size, fl, [dict(b=i, reset=(i == 0), ops=b) for i, b in enumerate(w)]))
+    # the completion count of a timeout: fires early (result 0) once another completion of the batch was posted, else -ETIME
+    cnt_batches = [[{"op": "timeout", "abs": a, "cnt": 1, "link": False}, {"op": "statx", "dir": 0, "name": 0, "link": False}] for a in (3, 2)] + \
+                  [[{"op": "timeout", "abs": a, "cnt": 1, "link": False}] for a in (3, 2, 1)]
+    plan.append(("timeout_count", 8, 0, [dict(b=i, reset=(i == 0), ops=b) for i, b in enumerate(cnt_batches)]))
     if not quick:       # every flag combination on the main ring size as well
         for fl in ops_flags:
             for w in walks[8][:1]:
@@ -338,13 +346,15 @@ def run(tier):
         if recs and recs[0]["ev"] == "setup_failed":
             raise core.ToolError("set-up of an accepted flag combination failed: %s" % recs[0])
         for r in recs:
-            if r["ev"] == "batch":
+            if r["ev"] in ("batch", "geometry"):
                 allrecs.append(r)
                 meta.append((tag, entries, flags))
             if r["ev"] == "aborted":
                 aborted[tag] = r["why"]
         st = stats.setdefault(tag, {"entries": entries, "flags": flags, "batches": 0, "operations": 0, "linked": 0, "cancelled": 0, "failed_results": 0})
         for r in recs:
+            if r["ev"] == "geometry":
+                st["ring"] = {k: r[k] for k in ("requested", "w_sq_entries", "w_sq_mask", "w_cq_entries", "w_cq_mask")}
             if r["ev"] != "batch":
                 continue
             st["batches"] += 1
@@ -390,6 +400,12 @@ def run(tier):
         for i, clause in bad.items():
             rec = allrecs[ci * B + i]
             tag, entries, flags = meta[ci * B + i]
+            if rec["ev"] == "geometry":
+                nbad += 1
+                chk.violate({"part": "setup", "clause": clause}, "%s: set-up of a ring of %d requested entries (flags %d): wrapper %s, kernel sq_entries %d cq_entries %d" % (
+                    clause, rec["requested"], flags, {k: rec[k] for k in ("w_sq_entries", "w_sq_mask", "w_cq_entries", "w_cq_mask")}, rec["k_sq_entries"], rec["k_cq_entries"]),
+                    {"part": "setup", "entries": entries, "flags": flags, "record": rec, "clause": clause})
+                continue
             op, detail = culprit(rec, clause)
             nbad += 1
             chk.violate({"part": "ops", "clause": clause, "op": op},
@@ -403,15 +419,15 @@ def run(tier):
             raise core.ToolError("uring_ops gave up on %s (%s) although no batch of that run was rejected" % (tag, why))
     chk.extra["driver_runs_aborted_after_rejections"] = aborted
     chk.traces += len(allrecs) - nbad
-    chk.evaluations += sum(r["n"] for r in allrecs)
-    core.log("judge: %d batch records, %d rejected %.1fs" % (len(allrecs), nbad, time.time() - t2))
+    chk.evaluations += sum(r.get("n", 1) for r in allrecs)
+    core.log("judge: %d records, %d rejected %.1fs" % (len(allrecs), nbad, time.time() - t2))
     # ---- teardown under strace
     t3 = time.time()
     tflags = sorted(accepted) if not quick else [f for f in sorted(accepted) if bin(f).count("1") <= 1] + [SQE128 | CQE32, SINGLE_ISSUER | DEFER]
-    truns, tmeta, skipped = [], [], []
+    truns, tmeta, skipped, tgeo = [], [], [], []
     rid = 0
     for fl in tflags:
-        for entries in ((8,) if quick else (1, 8, 32)):
+        for entries in ((8, 6) if quick else (1, 3, 8, 12, 33)):
             for with_op in ((False, True) if not (fl & R_DISABLED or fl & IOPOLL) else (False,)):
                 evs, out = strace_teardown(chk, bindir, entries, fl, with_op, rid)
                 if evs is None:
@@ -419,7 +435,15 @@ def run(tier):
                     continue
                 truns.append(evs)
                 tmeta.append((entries, fl, with_op, evs[0]["single_mmap"]))
+                tgeo += [o for o in out if o["ev"] == "geometry"]
                 rid += 1
+    if tgeo:
+        gres, gbad = judge_batches(chk, tgeo, "tgeo")
+        chk.add_tlc(gres)
+        for i, clause in gbad.items():
+            rec = tgeo[i]
+            chk.violate({"part": "setup", "clause": clause}, "%s: set-up of a ring of %d requested entries (flags %d): %s" % (clause, rec["requested"], rec["flags"], rec),
+                        {"part": "setup", "entries": rec["requested"], "flags": rec["flags"], "record": rec, "clause": clause})
     tbad = judge_teardown(chk, truns)
     for run_id, (why, ev) in tbad.items():
         entries, fl, with_op, single = tmeta[run_id]
